@@ -28,7 +28,7 @@ fn check_record(r: &FlowSet, b: &[u8], o: usize) {
 
 /// B.v7.parse -- C03/C14 for counts 0..=2 and every buffer length 0..=N
 #[kani::proof]
-#[kani::unwind(4)]
+#[kani::unwind(6)]
 fn b_v7_parse() {
     let buf: [u8; N] = kani::any();
     let n: usize = kani::any();
@@ -58,7 +58,7 @@ fn b_v7_parse() {
 
 /// B.v7.roundtrip -- C08 for counts 0..=1: to_be_bytes(parse(b)) == version field ++ consumed bytes
 #[kani::proof]
-#[kani::unwind(4)]
+#[kani::unwind(6)]
 fn b_v7_roundtrip() {
     let buf: [u8; 22 + 52] = kani::any();
     let n: usize = kani::any();
@@ -75,4 +75,42 @@ fn b_v7_roundtrip() {
     } else {
         assert!(false, "complete packet rejected");
     }
+}
+
+fn any_record() -> FlowSet {
+    FlowSet { src_addr: Ipv4Addr::from(kani::any::<u32>()), dst_addr: Ipv4Addr::from(kani::any::<u32>()), next_hop: Ipv4Addr::from(kani::any::<u32>()),
+        input: kani::any(), output: kani::any(), d_pkts: kani::any(), d_octets: kani::any(), first: kani::any(), last: kani::any(),
+        src_port: kani::any(), dst_port: kani::any(), tcp_flags: kani::any(), protocol_number: kani::any(),
+        protocol_type: ProtocolTypes::Unknown, tos: kani::any(), src_as: kani::any(), dst_as: kani::any(), src_mask: kani::any(), dst_mask: kani::any(), flags_fields_valid: kani::any(), flags_fields_invalid: kani::any(), router_src: Ipv4Addr::from(kani::any::<u32>()) }
+}
+fn check_exported(out: &[u8], o: usize, r: &FlowSet) {
+    assert!(out[o..o + 4] == r.src_addr.octets() && out[o + 4..o + 8] == r.dst_addr.octets() && out[o + 8..o + 12] == r.next_hop.octets());
+    assert!(be16(out, o + 12) == r.input && be16(out, o + 14) == r.output);
+    assert!(be32(out, o + 16) == r.d_pkts && be32(out, o + 20) == r.d_octets && be32(out, o + 24) == r.first && be32(out, o + 28) == r.last);
+    assert!(be16(out, o + 32) == r.src_port && be16(out, o + 34) == r.dst_port);
+    assert!(out[o + 37] == r.tcp_flags && out[o + 38] == r.protocol_number && out[o + 39] == r.tos);
+    assert!(be16(out, o + 40) == r.src_as && be16(out, o + 42) == r.dst_as && out[o + 44] == r.src_mask && out[o + 45] == r.dst_mask);
+    assert!(out[o + 36] == r.flags_fields_valid && be16(out, o + 46) == r.flags_fields_invalid);
+    assert!(out[o + 48..o + 52] == r.router_src.octets());
+}
+
+/// B.v7.export -- C08 encoder side on a constructed structure with one record: every field big-endian
+/// at its Cisco offset, records in order, nothing else emitted (no parsing involved: fast)
+#[kani::proof]
+#[kani::unwind(6)]
+fn b_v7_export() {
+    let h = Header { version: kani::any(), count: kani::any(), sys_up_time: kani::any(), unix_secs: kani::any(), unix_nsecs: kani::any(),
+                     flow_sequence: kani::any(), reserved: kani::any() };
+    let n: usize = 1;
+    let mut flowsets = Vec::with_capacity(1);
+    flowsets.push(any_record());
+    let p = V7 { header: h, flowsets };
+    let out = p.to_be_bytes();
+    kani::cover!(out.len() == 24 + 1 * 52, "one record");
+    assert!(out.len() == 24 + 52 * n, "re-export length is not 24 + 52*records");
+    assert!(be16(&out, 0) == h.version && be16(&out, 2) == h.count && be32(&out, 4) == h.sys_up_time);
+    assert!(be32(&out, 8) == h.unix_secs && be32(&out, 12) == h.unix_nsecs && be32(&out, 16) == h.flow_sequence);
+    assert!(be32(&out, 20) == h.reserved);
+    if n >= 1 { check_exported(&out, 24, &p.flowsets[0]); }
+    if n >= 2 { check_exported(&out, 24 + 52, &p.flowsets[1]); }
 }
